@@ -136,7 +136,7 @@ PROPS = {
     'C15': dict(
         level='proof', verus_units=['core'],
         kani=True,
-        kani_select=dict(quick=r'^k_pair_|^k_glue_map_fil_(cnt|find)_n3c1|^k_glue_filtermap_fil_find_n3c1|^k_glue_map_fil_red_n3c1', thorough=r'^k_pair_|^k_glue_'),
+        kani_select=dict(quick=r'^k_pair_|^k_dep_huge|^k_glue_map_fil_(cnt|find)_n3c1|^k_glue_filtermap_fil_find_n3c1|^k_glue_map_fil_red_n3c1', thorough=r'^k_pair_|^k_dep_huge|^k_glue_'),
         trusted_base=[T1, T5, AHW, A64, ASPEC, ARITH, STUBS, MODEL],
         assumptions=['domain restriction (known finding KF-C15-1): chunk sizes c with len + c*(T+1) > usize::MAX wrap the dependency\'s position counter; the contracts do not cover them', TASK_BOUND + ' (only for "result independent of worker count / chunk size")'],
         explanation='Verus (unbounded): every arithmetic operation, assert!, expect, index and division in parameter resolution (calc_num_threads, calc_chunk_size, div_ceil, find_chunk_size, min_chunk_size, lag/fibonacci) and in the Runner is safe for all inputs; chunk >= 1, threads >= 1; the spawn loops terminate. Kani (bounded): kernels agree with the parameter-free sequential oracle for the worker counts / chunk sizes of the shapes.',
